@@ -209,3 +209,109 @@ func verif_C05_refused_mid() {
 	verifAssert(reps[8].code == 250, "C05.mid-command-mode-after")
 	verifAssert(verifGoroutinesAlive() == 0, "C05.mid-no-goroutine-left")
 }
+
+// verif_C05_limiter: BDAT payloads with LF-free runs shorter and longer than
+// MaxLineLength, the command line and its chunk in one segment or in separate
+// segments, then a short command. "No line-length limit" applies to payloads;
+// the command after the transfer must not be refused for its length.
+func verif_C05_limiter() {
+	verifPreemptBound(0)
+	max := 16
+	run := nondetInt(max-4, max+6) // chunk size: an LF-free run around the limit
+	segMode := verifChoice(3)      // 0 command and chunk in separate segments, 1 one segment, 2 command + all but the last chunk octet, then the rest
+	sameSeg := segMode == 1
+	last := nondetBool()
+	payload := make([]byte, run)
+	for i := range payload {
+		payload[i] = 'p'
+	}
+	// one arbitrary octet in the payload (may be LF, which resets the limiter's count)
+	payload[nondetInt(0, run-1)] = nondetByte()
+	line := "BDAT " + strconv.Itoa(run)
+	if last {
+		line += " LAST"
+	}
+	line += "\r\n"
+	head := "EHLO c\r\nMAIL FROM:<s@v>\r\nRCPT TO:<r@v>\r\n"
+	in := []byte(head + line)
+	cutAt := len(in)
+	in = append(in, payload...)
+	in = append(in, "NOOP\r\n"...)
+	var got []byte
+	be := &vbackend{}
+	be.dataFn = func(_ *vsession, r io.Reader) error {
+		b, e := verifReadAll(r, 5)
+		got = b
+		if e == io.EOF {
+			return nil
+		}
+		return e
+	}
+	s, lg := verifServer(be)
+	s.MaxLineLength = max + 8 // the command lines themselves (<= 21 octets) fit
+	max = s.MaxLineLength
+	vc := &vconn{in: in, final: io.EOF}
+	firstRead := 0 // chunk octets that arrive in the same read as the BDAT line
+	switch segMode {
+	case 0:
+		vc.cuts = []int{len(head), cutAt, cutAt + run}
+	case 1:
+		vc.cuts = []int{len(head)}
+		firstRead = run
+	case 2:
+		vc.cuts = []int{len(head), cutAt + run - 1, cutAt + run}
+		firstRead = run - 1
+	}
+	// what the limiter (which sits below bufio) counts in that read
+	limiterTrips := false
+	cur := 1
+	for _, ch := range payload[:firstRead] {
+		if ch == '\n' {
+			cur = 0
+		}
+		cur++
+		if cur > max {
+			limiterTrips = true
+		}
+	}
+	if segMode == 1 && !limiterTrips {
+		// the NOOP line is in the same read as well
+		for _, ch := range []byte("NOOP\r\n") {
+			if ch == '\n' {
+				cur = 0
+			}
+			cur++
+			if cur > max {
+				limiterTrips = true
+			}
+		}
+	}
+	c := newConn(vc, s)
+	err := s.handleConn(c)
+	verifSettle()
+	reps, wf := verifParseReplies(vc.out)
+	verifObserve("c05l", run, segMode, last, wf, len(reps), lg.lines)
+	_ = sameSeg
+	verifAssert(err == nil && wf, "C05.limiter-clean")
+	if !wf {
+		return
+	}
+	tooLong := false
+	for _, r := range reps {
+		if r.code == 500 && len(r.lines) == 1 && r.lines[0] == "5.4.0 Too long line, closing connection" {
+			tooLong = true
+		}
+	}
+	// the limiter sits below bufio: octets of the chunk that arrive in the same
+	// read as the BDAT line are counted as line octets (listed known finding)
+	verifKnown("KF-C05-limiter-counts-payload", limiterTrips)
+	verifAssert(!tooLong, "C05.no-line-limit-on-chunk-payload")
+	if tooLong {
+		return
+	}
+	verifAssert(len(reps) == 6 && reps[4].code == 250 && reps[5].code == 250, "C05.limiter-command-after-transfer-accepted")
+	if last {
+		verifAssert(string(got) == string(payload), "C05.limiter-payload-exact")
+	}
+	verifReach("C05.limiter-end")
+}
